@@ -153,7 +153,10 @@ type c06world struct {
 	sess  *world.Session
 	model map[string]*val
 	next  int64
+	grp   int
 }
+
+func (w *c06world) newGroup() int { w.grp++; return w.grp }
 
 func (w *c06world) fresh() int64 { w.next++; return 1000 + w.next }
 
@@ -198,7 +201,7 @@ func (c06) Execute(h *core.History) *core.Outcome {
 			m[e.Name] = v
 			src = e.Name + " = " + v.src()
 		case "bind-map":
-			v := &val{kind: "map", m: map[string]*val{}}
+			v := &val{kind: "map", m: map[string]*val{}, grp: w.newGroup()}
 			for k := int64(0); k < e.N; k++ {
 				v.m["k"+strconv.FormatInt(k, 10)] = vint(w.fresh())
 			}
@@ -316,6 +319,7 @@ func (c06) Execute(h *core.History) *core.Outcome {
 			for k, vv := range c.m {
 				res.m[k] = vv.clone()
 			}
+			res.grp = w.newGroup() // the result of + is a new map: it shares storage with neither operand
 			m[e.Name] = res
 			src = fmt.Sprintf("%s = %s + (%s + {%q: %d})", e.Name, e.Name, e.Key, e.Args[0], nv)
 		case "call-mut-arr":
@@ -396,6 +400,7 @@ func (c06) Execute(h *core.History) *core.Outcome {
 			touched = e.Key
 			m[e.Name] = sv.clone()
 			if e.Ev == "empty-plus-map" {
+				m[e.Name].grp = w.newGroup() // {} + m is a new map
 				src = fmt.Sprintf("%s = {} + %s", e.Name, e.Key)
 			} else {
 				src = fmt.Sprintf("%s = [] + %s", e.Name, e.Key)
@@ -474,6 +479,9 @@ func (c06) Execute(h *core.History) *core.Outcome {
 			kind := "alias"
 			if nm == e.Name && (touched == "" || touched == e.Name) {
 				kind = "wrong-result"
+			} else if t := m[touched]; t != nil && t.kind == "map" && !m[nm].hasGroup(t.grp) {
+				// the two bindings never shared storage on the unchanged tree (one of them came out of a +)
+				kind = "alias-of-fresh-map"
 			}
 			ck := "arr"
 			if touched != "" && m[touched] != nil {
